@@ -191,6 +191,7 @@ func init() {
 		}
 		topUps()
 		botAll()
+		takeProfitSwitch(c, w, g)
 		g.Free(seg, g.StdDt)
 		// spike: shorts get into trouble, take-profits of longs trigger; then a long quiet gap (interest)
 		w.Prices["ATOM"] = atom().Mul(chain.Dec("1.6"))
